@@ -1207,6 +1207,10 @@ class Interp:
             return out
         if isinstance(it, IterV):
             return list(it.items)
+        if isinstance(it, GenFn):
+            out = []
+            self.run_generator(it, out.append)
+            return out
         if isinstance(it, Const):
             if isinstance(it.v, (str, tuple, list)):
                 return [Const(x) for x in it.v]
@@ -1699,6 +1703,15 @@ class Interp:
             finally:
                 self.frames.pop()
             return GenCM(f, fr)
+        if f.is_generator:
+            # a generator function: nothing runs until it is iterated (s_For runs the body lazily, one loop
+            # iteration per yield; other consumers collect the yielded values)
+            self.frames.append(fr)
+            try:
+                self.bind_args(f.node, args, kwargs, fr, f.qualname, node)
+            finally:
+                self.frames.pop()
+            return GenFn(f, fr)
         self.frames.append(fr)
         try:
             self.bind_args(f.node, args, kwargs, fr, f.qualname, node)
@@ -1972,8 +1985,39 @@ class Interp:
             if i > 10000:
                 raise AnalysisError("runaway iteration over a growing list")
 
+    def run_generator(self, g, on_value):
+        """Run a generator function's body; `on_value(v)` is called at every yield (it may raise _Break)."""
+        gfr = g.frame
+        gfr.yield_cb = on_value
+        depth = len(self.frames)
+        self.frames.append(gfr)
+        try:
+            try:
+                self.exec_block(g.func.node.body, gfr)
+            except _Return:
+                pass
+        finally:
+            del self.frames[depth:]
+            gfr.yield_cb = None
+
     def s_For(self, s, fr):
         itv = self.force(self.eval(s.iter, fr))
+        if isinstance(itv, GenFn):
+            broke = False
+
+            def body(x):
+                self.assign(s.target, x, fr, s)
+                try:
+                    self.exec_block(s.body, fr)
+                except _Continue:
+                    pass
+            try:
+                self.run_generator(itv, body)
+            except _Break:
+                broke = True
+            if not broke:
+                self.exec_block(s.orelse, fr)
+            return
         if isinstance(itv, Ref) and isinstance(self.heap.get(itv.addr), AList) and self.heap[itv.addr].items is not None \
                 and self.heap[itv.addr].kind == "list":
             items = self._live_list_iter(itv)
@@ -2130,6 +2174,16 @@ class GenV(V):
 
     def __hash__(self):
         return id(self.node)
+
+
+@dataclass(frozen=True)
+class GenFn(V):
+    """A called generator function that has not run yet."""
+    func: object
+    frame: object
+
+    def __hash__(self):
+        return id(self.frame)
 
 
 @dataclass(frozen=True)
